@@ -489,4 +489,7 @@ def orm_memo(prog: Program) -> RuleResult:
 
 
 def run(prog: Program, tier: str) -> List[RuleResult]:
-    return [wf_table(prog), orm_dispatch(prog), orm_imports(prog), orm_names(prog), orm_determinism(prog), orm_memo(prog)]
+    # the generator reads every field through its resolved annotation: an unresolved forward reference is no class to map
+    from .c17 import wf_resolved
+
+    return [wf_table(prog), orm_dispatch(prog), orm_imports(prog), orm_names(prog), orm_determinism(prog), orm_memo(prog), wf_resolved(prog)]
